@@ -3,9 +3,9 @@ import LitexModel.Bridge.Ports
   Model of `litex/soc/interconnect/axi/axi_lite_to_wishbone.py: Wishbone2AXILite`.
 
   Four-state FSM (IDLE, WRITE, READ, ERROR) with the flags `_cmd_done` / `_data_done`.  The AXI-Lite address
-  is `(wishbone.adr - base_address//4) << shift`, computed combinationally from the current Wishbone address
-  (the subtraction uses `base_address//4` whatever the data width and addressing: finding
-  C09-wb2axil-base-address-dw64; modelled as is).  A non-OKAY response leads through ERROR (`ack ∧ err`).
+  is `(wishbone.adr - (base_address >> shift)) << shift`, computed combinationally from the current Wishbone
+  address (as of fix 8039af6; before, `base_address//4` was subtracted whatever the word size: fixed finding
+  C09-wb2axil-base-address-dw64).  A non-OKAY response leads through ERROR (`ack ∧ err`).
 -/
 namespace Litex.Bridge
 open Litex
@@ -31,7 +31,7 @@ variable (c : W2ACfg)
 def init : W2AState := { st := .idle, cmdDone := false, dataDone := false }
 
 /-- `_addr` placed at `ax.addr[shift:]`. -/
-def axAddr (adr : Nat) : Nat := subTrunc c.adrBits adr (c.base / 4) * 2 ^ c.shift
+def axAddr (adr : Nat) : Nat := subTrunc c.adrBits adr (c.base / 2 ^ c.shift) * 2 ^ c.shift
 
 /-- AXI-Lite master outputs (`b.ready`/`r.ready` do not depend on the partner's valids). -/
 def toSlave (s : W2AState) (m : WbM) : AxlM :=
